@@ -5,6 +5,7 @@ mod multi;
 mod c07;
 mod c10;
 mod c08;
+mod c08s;
 mod c14;
 mod c15;
 mod c16;
@@ -28,6 +29,7 @@ fn main() {
         "C07" => c07::run(seed, tier, &mut out),
         "C10" => c10::run(seed, tier, &mut out),
         "C08" => c08::run(seed, tier, &mut out),
+        "C08S" => c08s::run(seed, tier, &mut out),
         "C14" => c14::run(seed, tier, &mut out),
         "C15" => c15::run(seed, tier, &mut out),
         "C16" => c16::run(seed, tier, &mut out),
